@@ -1,7 +1,7 @@
 (* C10 -- the statements of Properties/C10.v, proved from the lemmas of C10_list / C10_slice / C10_stack. *)
 From Coq Require Import Reals ZArith List Lia Bool.
-From PR Require Import Base.Num Base.RNum Base.ZX Base.Slice Model.Grid Model.SliceArea Model.Stack Gen.GenC10
-     Model.LonlatPaths Model.StackDask Proofs.C10_list Proofs.C10_slice Proofs.C10_stack Proofs.C10_gen Proofs.C10_paths Proofs.C10_stackdask.
+From PR Require Import Base.Num Base.RNum Base.ZX Base.Slice Base.Imp Model.Grid Model.SliceArea Model.Stack Gen.GenC10
+     Model.LonlatPaths Model.StackDask Proofs.C10_list Proofs.C10_slice Proofs.C10_stack Proofs.C10_gen Proofs.C10_paths Proofs.C10_stackdask Model.ImpStack Gen.GenC10imp Model.C10_imp_run Proofs.C10_imp.
 Import ListNotations.
 Open Scope Z_scope.
 
@@ -204,4 +204,46 @@ Lemma main_split_concat_routes : forall g a b k, wf_g g -> 0 <= a -> a < k -> k 
 Proof.
   intros g a b k W H1 H2 H3 H4 win. subst win. rewrite !gen_concat_eq, !gen_getitem_eq.
   apply (split_concat_routes g a b k W H1 H2 H3 H4).
+Qed.
+
+(* ---- wave 3: code is model for the stateful methods of StackedAreaDefinition (Gen/GenC10imp.v) *)
+Lemma main_append_code_is_model : forall (T : Type) (OP : ops T) (p : pstack T) (d : garea T),
+  match stack_append OP (to_stack p) d with
+  | None => imp_stack_append OP p d = Raised
+  | Some s' => exists st', state_of (imp_stack_append OP p d) = COk st' /\ to_stack (imp_stack_append_self st') = s' /\
+                           (gheight d <> 0 -> memo_reset (imp_stack_append_self st')) /\
+                           (gheight d = 0 -> imp_stack_append_self st' = p)
+  end.
+Proof. intros. apply imp_stack_append_model. Qed.
+Lemma main_append_sequence_code_is_model : forall (T : Type) (OP : ops T) (ds : list (garea T)) (p : pstack T),
+  match stack_append_all OP (to_stack p) ds with
+  | None => imp_append_all OP p ds = CRaised
+  | Some s' => exists p', imp_append_all OP p ds = COk p' /\ to_stack p' = s'
+  end.
+Proof. intros. apply imp_append_all_model. Qed.
+Lemma main_stack_observers_code_is_model : forall (T : Type) (OP : ops T) (p : pstack T),
+  value_of (imp_stack_squeeze OP p) = COk (match stack_squeeze (to_stack p) with Some d => inl d | None => inr p end) /\
+  value_of (imp_stack_width OP p) = match ps_defs p with [] => CRaised | d :: _ => COk (gwidth d) end /\
+  (ps_defs p <> [] -> value_of (imp_stack_width OP p) = COk (stack_width (to_stack p))) /\
+  value_of (imp_stack_height p) = COk (stack_height (to_stack p)).
+Proof.
+  intros T OP p. split; [apply imp_stack_squeeze_model|]. destruct (imp_stack_width_model OP p) as [H1 H2].
+  split; [exact H1|]. split; [exact H2|apply imp_stack_height_model].
+Qed.
+Lemma main_stack_split_id_code : forall g cuts, wf_g g -> cuts_ok 0 cuts (gheight g) ->
+  exists p' m, imp_append_all RO pstack_empty (parts RO g 0 cuts) = COk p' /\ ps_defs p' = [m] /\
+               value_of (imp_stack_squeeze RO p') = COk (inl m) /\ g_area m = g_area g /\ g_crs m = g_crs g /\
+               value_of (imp_stack_height p') = COk (gheight g).
+Proof.
+  intros g cuts W C. destruct (main_stack_split_id g cuts W C) as (s & m & E & Esq & Ea & Ec & Eh).
+  pose proof (imp_append_all_model RO (parts RO g 0 cuts) pstack_empty) as H.
+  change (to_stack (@pstack_empty R)) with (@stack_empty R) in H. rewrite E in H. destruct H as (p' & Ep & Es).
+  exists p', m. split; [exact Ep|].
+  assert (Ed : ps_defs p' = [m]).
+  { unfold stack_squeeze in Esq. rewrite <- Es in Esq. unfold to_stack in Esq. cbn [s_rdefs] in Esq.
+    destruct (rev (ps_defs p')) as [|x [|y t]] eqn:Er; try discriminate. inversion Esq; subst.
+    rewrite <- (rev_involutive (ps_defs p')), Er. reflexivity. }
+  split; [exact Ed|]. split.
+  - rewrite imp_stack_squeeze_model, Es, Esq. reflexivity.
+  - repeat split; try assumption. rewrite imp_stack_height_model, Es, Eh. reflexivity.
 Qed.
